@@ -193,3 +193,18 @@ func TestReqMatrix(t *testing.T) {
 	s.Dist["matrix_cells_total"] = cells
 	s.Dist["matrix_cells_run"] = cells - skip
 }
+
+func init() {
+	// a retained-frames finding is replayed by running the check again
+	prev := scriptReplayers["reqmatrix"]
+	scriptReplayers["reqmatrix"] = func(t *testing.T, s *Stream, rp *Replay) {
+		if len(rp.Ops) > 0 && strings.HasPrefix(rp.Ops[0], "assemble ") {
+			retainedFrames(s)
+			t.Logf("retained-frames re-run: %d finding(s)", len(s.Finds))
+			return
+		}
+		if prev != nil {
+			prev(t, s, rp)
+		}
+	}
+}
